@@ -48,9 +48,9 @@ Section Any.
     snd (step (after h init) q) = snd (step init q).
   Proof. exact (hist_answer value load input analysis explicit). Qed.
 
-  (* the cache never holds more than 32 modules, nor the same module twice *)
+  (* the cache never holds more than maxsize (= the decorator's bound, 32 today) modules, nor one twice *)
   Theorem C18_lru : forall h,
-    (length (lru value (after h init)) <= 32)%nat /\ NoDup (map fst (lru value (after h init))).
+    (length (lru value (after h init)) <= maxsize)%nat /\ NoDup (map fst (lru value (after h init))).
   Proof. exact (lru_bound value load input analysis explicit). Qed.
 End Any.
 Print Assumptions C18_inv.
@@ -71,8 +71,8 @@ Theorem C18_envelope_refuted :
 Proof. exact envelope_refuted. Qed.
 Print Assumptions C18_envelope_refuted.
 
-(* non-vacuity: 33 distinct modules evict the first one (its next use is a miss), a repeated one hits *)
+(* non-vacuity: maxsize+1 distinct modules evict the first one (its next use is a miss), a recent one hits *)
 Example C18_example_evict :
-  let names := map (fun k => [N.of_nat k]) (seq 0 33) in
-  fst (trace (list N) (fun m => m) [] (names ++ [[0%N]; [32%N]])) = repeat false 33 ++ [false; true].
+  let names := map (fun k => [N.of_nat k]) (seq 0 (S maxsize)) in
+  fst (trace (list N) (fun m => m) [] (names ++ [[0%N]; [N.of_nat maxsize]])) = repeat false (S maxsize) ++ [false; true].
 Proof. vm_compute. reflexivity. Qed.
